@@ -1,0 +1,140 @@
+// Copyright 2019 Samaritan Authors
+//
+// Licensed under the Apache License, Version 2.0 (the "License");
+// you may not use this file except in compliance with the License.
+// You may obtain a copy of the License at
+//
+//      http://www.apache.org/licenses/LICENSE-2.0
+//
+// Unless required by applicable law or agreed to in writing, software
+// distributed under the License is distributed on an "AS IS" BASIS,
+// WITHOUT WARRANTIES OR CONDITIONS OF ANY KIND, either express or implied.
+// See the License for the specific language governing permissions and
+// limitations under the License.
+
+//go:build verif
+// +build verif
+
+package config
+
+import (
+	"context"
+	"sort"
+
+	"github.com/samaritan-proxy/samaritan/pb/api"
+	"github.com/samaritan-proxy/samaritan/pb/common"
+	"github.com/samaritan-proxy/samaritan/pb/config/service"
+)
+
+// This file only exists with the build tag "verif". It gives the model-based
+// verification harness a handle on the unexported subscription client of the
+// discovery streams (svcDiscoveryClient) without changing it: the client is
+// built by the production constructor, only the stream factory is supplied by
+// the harness.
+
+// VerifSvcStream is the stream the subscription client talks to (the
+// unexported svcDiscoveryStream): Send carries one subscribe/unsubscribe
+// request, Recv blocks until the next response or the failure of the stream.
+type VerifSvcStream interface {
+	Send(subscribed, unsubscribed []string) error
+	Recv() error
+}
+
+// VerifSvcStreamMaker creates a stream; it may block and may fail.
+type VerifSvcStreamMaker func(ctx context.Context) (VerifSvcStream, error)
+
+// VerifSvcClient is a handle on a svcDiscoveryClient.
+type VerifSvcClient struct {
+	c *svcDiscoveryClient
+}
+
+// NewVerifSvcClient builds the production subscription client (16-entry queues)
+// on top of the given stream factory.
+func NewVerifSvcClient(scope string, maker VerifSvcStreamMaker) *VerifSvcClient {
+	c := newSvcDiscoveryClient(scope, func(ctx context.Context) (svcDiscoveryStream, error) {
+		s, err := maker(ctx)
+		if err != nil {
+			return nil, err
+		}
+		return s, nil
+	})
+	return &VerifSvcClient{c: c}
+}
+
+// Subscribe calls the client's Subscribe.
+func (v *VerifSvcClient) Subscribe(svcName string) { v.c.Subscribe(svcName) }
+
+// Unsubscribe calls the client's Unsubscribe.
+func (v *VerifSvcClient) Unsubscribe(svcName string) { v.c.Unsubscribe(svcName) }
+
+// Run calls the client's Run (returns when ctx is cancelled).
+func (v *VerifSvcClient) Run(ctx context.Context) { v.c.Run(ctx) }
+
+// QueueLens reports the number of entries waiting in the subscribe and
+// unsubscribe queues, and their capacity.
+func (v *VerifSvcClient) QueueLens() (sub, unsub, capacity int) {
+	return len(v.c.subCh), len(v.c.unsubCh), cap(v.c.subCh)
+}
+
+// LockFree reports whether the client's lock could be taken for reading right
+// now (it never blocks).
+func (v *VerifSvcClient) LockFree() bool {
+	if !v.c.TryRLock() {
+		return false
+	}
+	v.c.RUnlock()
+	return true
+}
+
+// Subscribed returns the sorted subscribed set; ok is false when the lock is
+// held by a writer (the call never blocks).
+func (v *VerifSvcClient) Subscribed() (names []string, ok bool) {
+	if !v.c.TryRLock() {
+		return nil, false
+	}
+	for n := range v.c.subscribed {
+		names = append(names, n)
+	}
+	v.c.RUnlock()
+	sort.Strings(names)
+	return names, true
+}
+
+// VerifDiscoveryClient is a handle on the composite discovery client that the
+// dynamic source runs (dependency stream whose hook subscribes/unsubscribes
+// on the service config and service endpoint streams).
+type VerifDiscoveryClient struct {
+	c *discoveryClient
+}
+
+// NewVerifDiscoveryClient builds the production discovery client on a gRPC stub.
+func NewVerifDiscoveryClient(stub api.DiscoveryServiceClient) *VerifDiscoveryClient {
+	return &VerifDiscoveryClient{c: newDiscoveryClient(stub)}
+}
+
+// StreamDependencies runs the dependency stream (blocks until ctx is cancelled).
+func (v *VerifDiscoveryClient) StreamDependencies(ctx context.Context, inst *common.Instance,
+	hook func(added, removed []*service.Service)) {
+	v.c.StreamDependencies(ctx, inst, hook)
+}
+
+// StreamSvcConfigs runs the service config stream (blocks until ctx is cancelled).
+func (v *VerifDiscoveryClient) StreamSvcConfigs(ctx context.Context, hook func(svcName string, newCfg *service.Config)) {
+	v.c.StreamSvcConfigs(ctx, hook)
+}
+
+// StreamSvcEndpoints runs the service endpoint stream (blocks until ctx is cancelled).
+func (v *VerifDiscoveryClient) StreamSvcEndpoints(ctx context.Context,
+	hook func(svcName string, added, removed []*service.Endpoint)) {
+	v.c.StreamSvcEndpoints(ctx, hook)
+}
+
+// SvcConfigClient returns the handle of the service config subscription client.
+func (v *VerifDiscoveryClient) SvcConfigClient() *VerifSvcClient {
+	return &VerifSvcClient{c: v.c.svcConfig.svcDiscoveryClient}
+}
+
+// SvcEndpointClient returns the handle of the service endpoint subscription client.
+func (v *VerifDiscoveryClient) SvcEndpointClient() *VerifSvcClient {
+	return &VerifSvcClient{c: v.c.svcEndpoint.svcDiscoveryClient}
+}
